@@ -306,6 +306,19 @@ def _state(antes, blinds, stacks, n, bb, seed, autos=FULL, game='NT',
         except ValueError:
             pass
         g.raw_antes, g.raw_blinds_or_straddles = real_a, real_b
+        # ... and for other table sizes with this very layout (a table that
+        # fills up, a sit-and-go that shrinks): the representation is read
+        # anew for every state
+        from collections.abc import Iterator
+        one_shot = any(isinstance(x, Iterator)
+                       for x in (g.raw_antes, g.raw_blinds_or_straddles))
+        # (a layout handed over as a one-shot iterator is used up by the
+        # first state, whatever its size: such a game object is not reused)
+        for n2 in () if one_shot else (n + 1, max(2, n - 1)):
+            try:
+                g(_conv([500] * n2, chip), n2)
+            except (ValueError, IndexError):
+                pass
         random.seed(seed)      # the warm-up shuffled a deck of its own
     return g(stacks, n)
 
